@@ -55,8 +55,9 @@ class Ctx:
         return Opt(z3.BoolVal(False), self.lift(v))
 
 class Frame:
-    def __init__(self, ctx, env, fn_globals, self_obj_cls=None):
+    def __init__(self, ctx, env, fn_globals, self_obj_cls=None, dyn_cls=None):
         self.ctx, self.env, self.g, self.cls = ctx, env, fn_globals, self_obj_cls
+        self.dyn_cls = dyn_cls or self_obj_cls        # class of the object `self` (dynamic dispatch)
         self.ret = None; self.returned = z3.BoolVal(False); self.cont = z3.BoolVal(False)
 
 class Interp:
@@ -173,7 +174,7 @@ class Interp:
             if isinstance(e.value, ast.Name) and e.value.id == "self":
                 k = "self." + e.attr
                 if k in fr.env: return fr.env[k]
-                if fr.cls is not None and hasattr(fr.cls, e.attr): return getattr(fr.cls, e.attr)   # class constants
+                if fr.dyn_cls is not None and hasattr(fr.dyn_cls, e.attr): return getattr(fr.dyn_cls, e.attr)   # class constants
             base = self.expr(fr, e.value, guard)
             if not is_sym(base) and not isinstance(base, (list, Opt)) and base is not None:
                 return getattr(base, e.attr)
@@ -251,7 +252,7 @@ class Interp:
                 if key in self.stubs: return self.stubs[key](self, fr, args, guard)
                 cls = fr.cls
                 if is_super: cls = [k for k in fr.cls.__mro__[1:] if f.attr in k.__dict__][0]
-                else: cls = [k for k in fr.cls.__mro__ if f.attr in k.__dict__][0]
+                else: cls = [k for k in fr.dyn_cls.__mro__ if f.attr in k.__dict__][0]
                 return self.inline(cls, f.attr, args, fr, guard)
         # pure call with concrete arguments only (isinstance, re.match, str methods ...): evaluate it
         if all(not is_sym(a) and not isinstance(a, list) for a in args) and not e.keywords:
@@ -260,6 +261,12 @@ class Interp:
                 return target(*args)
             except Unsupported:
                 pass
+            except Exception:
+                # a concrete call that fails is fine when this program point is unreachable (guard unsatisfiable)
+                sv = z3.Solver(); sv.set("timeout", 5000); sv.add(guard)
+                if str(sv.check()) == "unsat":
+                    return None
+                raise
         raise Unsupported("call " + ast.dump(f))
     def inline(self, cls, name, args, caller, guard):
         fn = cls.__dict__[name]
@@ -267,7 +274,7 @@ class Interp:
         params = [a.arg for a in tree.args.args][1:]
         env = {k: v for k, v in caller.env.items() if k.startswith("self.")}
         env.update(dict(zip(params, args)))
-        fr = Frame(self.ctx, env, fn.__globals__, cls)
+        fr = Frame(self.ctx, env, fn.__globals__, cls, caller.dyn_cls)
         self.block(fr, tree.body, guard)
         for k, v in fr.env.items():
             if k.startswith("self."): caller.env[k] = v
@@ -275,5 +282,6 @@ class Interp:
 def run_method(cls, name, env, args, ctx, stubs=None, start_cls=None):
     it = Interp(ctx, stubs)
     caller = Frame(ctx, dict(env), {}, start_cls or cls)
-    ret = it.inline(cls, name, args, caller, z3.BoolVal(True))
+    owner = [k for k in cls.__mro__ if name in k.__dict__][0]
+    ret = it.inline(owner, name, args, caller, z3.BoolVal(True))
     return ret, caller.env
